@@ -49,8 +49,15 @@ func expression(expression string, tx func(excellent.Expression) bool) (string, 
 }
 
 func wrapExpression(tokenType excellent.XTokenType, token string) string {
-	if tokenType == excellent.IDENTIFIER {
+	if tokenType == excellent.IDENTIFIER && isIdentifier(token) {
 		return "@" + token
 	}
 	return "@(" + token + ")"
+}
+
+// whether the given expression can be written as @identifier, i.e. would be read back in full by the scanner
+func isIdentifier(token string) bool {
+	scanner := excellent.NewXScanner(strings.NewReader("@"+token), nil)
+	tokenType, scanned := scanner.Scan()
+	return tokenType == excellent.IDENTIFIER && scanned == token
 }
